@@ -32,6 +32,21 @@ claimed = {
    text="Decides structural necessary conditions, not the behaviour: encodeDouble has no feasible error return (totality); under float64(int64(v))==v the compact forms are selected exactly on {0},{1},[-128,127],[-32768,32767]; octets are windows of int64(v)/Float32bits/Float64bits; decoder tag sets and payloads agree with the table and the encoder. Floating-point exactness of the float32 test and NaN handling are NOT decided.",
    design_ref="DESIGN.md §3 C08",
    note="IEEE conversion semantics are not modelled; the integrality and float32 guards are recognised by their term shape."),
+ "C17": dict(
+   technique="static typestate/effect analysis of the pool over go/ssa: select shapes, channel creation and assignment, value flow of the pooled object, call-graph reachability of blocking constructs",
+   text="Decides the property under Go's channel semantics: every channel operation reachable from Get/Return is a case of a select with default, no other blocking construct is reachable (also through the factories), the channel is created once in the constructor with capacity = size and never reassigned, Get returns only the received element or the factory's fresh result, Return's parameter has exactly one use (the send). No interleaving is enumerated and nothing is run; the conclusion for all schedules follows from the semantics of buffered channels and non-blocking select.",
+   design_ref="DESIGN.md §3 C17, Appendix A.10",
+   note="Not covered: a caller returning the same object twice (caller misuse). Trusts Go's channel semantics."),
+ "C12": dict(
+   technique="static ownership/effect analysis over go/ssa + VTA call graph: writers of every package-level variable vs. functions reachable from the API; lookup-miss guard on shared maps; census of concurrency constructs",
+   text="Decides a sufficient condition instead of exploring schedules: no function reachable from any exported entry point writes a package-level variable or memory reachable from one (writers are init-only or the documented SetLogger), shared caller maps are written only under a failed lookup of the same key, and the package contains no goroutine/sync/atomic construct outside the pool's selects. With the listed assumptions each call then depends only on its own instance and immutable shared memory.",
+   design_ref="DESIGN.md §3 C12, Appendix A.9",
+   note="Assumes reflect/bytes/bufio/time/strings/fmt are safe on distinct values, the configured logger is goroutine-safe, callers do not mutate inputs concurrently, and shared maps are complete."),
+ "C11": dict(
+   technique="static effect analysis over go/ssa: mutated-field enumeration vs Reset coverage, reset-before-work dominance on the call graph, lookup-miss guard, reflect-setter receivers, output provenance",
+   text="Decides the frame conditions the behavioural property rests on (necessary conditions, not probe equality over histories): every Encoder/Decoder field mutated on the codec path is re-initialised by Reset, every one-shot entry point resets before any work, caller maps are written only on a lookup miss, the encoder calls reflect setters only on values it allocated, input byte slices reach only bytes.NewReader, and Encode returns a buffer allocated in the call.",
+   design_ref="DESIGN.md §3 C11",
+   note="Does not decide byte-for-byte equality of a probe call against a fresh instance for all histories."),
 }
 
 checks = []
